@@ -58,7 +58,10 @@ type Proof struct {
 }
 
 func (p *Proof) IsValid(public Public) bool {
-	if p == nil {
+	if p == nil || p.group == nil || p.Commitment == nil || public.Verifier == nil || public.Aux == nil {
+		return false
+	}
+	if !arith.IsValidNatModN(public.Aux.N(), p.E, p.S) {
 		return false
 	}
 	if !arith.IsValidNatModN(public.Verifier.N(), p.W) {
@@ -67,7 +70,7 @@ func (p *Proof) IsValid(public Public) bool {
 	if !public.Verifier.ValidateCiphertexts(p.A) {
 		return false
 	}
-	if p.Bx.IsIdentity() {
+	if curve.IsNilPoint(p.Bx) || p.Bx.IsIdentity() {
 		return false
 	}
 	return true
